@@ -819,6 +819,25 @@ impl<const N: usize> ScenN<N> {
                     Err(e) => format!("err {}", err_kind(&e)),
                 }
             }
+            "cf" | "cfs" => {
+                let k = match Self::key(toks[1]) {
+                    Some(k) => k,
+                    None => return "bad-op".into(),
+                };
+                if toks[0] == "cf" {
+                    match st.check_filters(&k).await {
+                        Some(true) => "some true".into(),
+                        Some(false) => "some false".into(),
+                        None => "none".into(),
+                    }
+                } else {
+                    use pearl::BloomProvider;
+                    match st.check_filter(&k).await {
+                        pearl::FilterResult::NeedAdditionalCheck => "maybe".into(),
+                        pearl::FilterResult::NotContains => "no".into(),
+                    }
+                }
+            }
             "c" => {
                 let k = match Self::key(toks[1]) {
                     Some(k) => k,
@@ -1183,6 +1202,7 @@ fn new_scen(cfg: Cfg, dir: PathBuf) -> Option<Box<dyn Scen>> {
 
 pub fn run_lines(lines: &[String], base: &Path, keep: bool, out: &mut dyn FnMut(&str)) {
     let mut cur: Option<Box<dyn Scen>> = None;
+    let mut bloom = crate::bloomproto::BloomProto::default();
     let mut n = 0usize;
     let pid = std::process::id();
     for line in lines {
@@ -1191,7 +1211,12 @@ pub fn run_lines(lines: &[String], base: &Path, keep: bool, out: &mut dyn FnMut(
             continue;
         }
         let toks: Vec<&str> = t.split_whitespace().collect();
+        if toks[0] == "bloom" || toks[0] == "bloom2" {
+            out(&bloom.step(&toks));
+            continue;
+        }
         if toks[0] == "cfg" {
+            bloom = crate::bloomproto::BloomProto::default();
             if let Some(mut s) = cur.take() {
                 s.finish(keep);
             }
